@@ -65,6 +65,10 @@ def cases(tier, seed):
     for i in range(n):
         out.append({'name': 'bypass-%d' % i, 'kind': 'bypass',
                     'seed': [seed, 46, i]})
+    n = 14 if tier == 'quick' else 400
+    for i in range(n):
+        out.append({'name': 'ddcore-%d' % i, 'kind': 'ddcore',
+                    'seed': [seed, 47, i]})
     return out
 
 
@@ -534,6 +538,17 @@ def probe_gap(res, core, dz, key, tdep, t_duct, eval_temps=None):
 # ----------------------------------------------------------------------
 
 
+def _water(P):
+    """Water-like constant-property coolant: low conductivity, so the film
+    coefficient (not conduction) dominates every wall coupling term."""
+    P['materials']['water_const'] = {
+        'thermal_conductivity': [0.6], 'density': [1000.0],
+        'viscosity': [1.0e-3], 'heat_capacity': [4180.0]}
+    P['coolant'] = 'water_const'
+    P['coolant_rho_cp'] = (1000.0, 4180.0)
+    return False
+
+
 def build_problem(case):
     rng = np.random.default_rng(case['seed'])
     if case['kind'] == 'asm':
@@ -589,15 +604,53 @@ def build_problem(case):
         tdep = True
         P, feats = wl.single_assembly(
             rng, coolant_pool=True, tdep=True, max_rings=4, length=0.3,
-            n_duct=int(wl.choose(rng, [2, 2, 3])),
-            gap=wl.choose(rng, ['none', 'no_flow', 'duct_average', 'flow']),
+            n_duct=int(wl.choose(rng, [2, 3, 3])),
+            gap=wl.choose(rng, ['none', 'none', 'no_flow', 'duct_average',
+                                'flow']),
             vel=wl.loguniform(rng, 0.3, 4.0), lf=False, regions=False,
-            conv_approx=False, byp=wl.loguniform(rng, 0.004, 0.05))
+            conv_approx=False, byp=wl.loguniform(rng, 2e-4, 0.05))
         sp = P['power']['asm']['0']
         sp['total'] = sp['total'] * 2.0
         sp['comps'] = [1, 2, 3]
         if P['gap_model'] != 'none':
             P['bypass_fraction'] = wl.loguniform(rng, 0.02, 0.2)
+        if rng.random() < 0.3:
+            tdep = _water(P)
+    elif case['kind'] == 'ddcore':
+        # several assemblies of ONE double/triple-duct type with very
+        # different flows (one of them starved): the bypass gap of the
+        # starved one limits the step; sodium, T-dependent sodium or a
+        # water-like coolant (film coefficients dominate the wall coupling)
+        nd = int(wl.choose(rng, [2, 2, 3, 3]))
+        ck = wl.choose(rng, ['na', 'tdep', 'water'])
+        tdep = (ck == 'tdep')
+        gapm = wl.choose(rng, ['none', 'none', 'no_flow', 'flow',
+                               'duct_average'])
+        P = gen.base_problem(length=0.25, asm_pitch=0.12, gap_model=gapm,
+                             coolant=(wl.TDEP_NA if tdep else 'na_const'),
+                             bypass_fraction=(0.0 if gapm == 'none' else
+                                              wl.loguniform(rng, 0.02, 0.2)))
+        if ck == 'water':
+            _water(P)
+        P['types']['a'] = wl.random_type(
+            rng, 0.1175, nr=int(wl.choose(rng, [2, 3, 4])), n_duct=nd,
+            tdep=tdep, allow_bare=False,
+            byp=wl.loguniform(rng, 2e-4, 0.05))
+        wl.random_power(rng, P, max_cells=2, max_order=1)
+        n_asm = int(rng.integers(1, 5))
+        spots = [0] + [int(x) for x in rng.permutation(np.arange(1, 7))[
+            :n_asm - 1]]
+        for j, k0 in enumerate(sorted(spots)):
+            ring, pos = gen.ring_pos(k0)
+            v = wl.loguniform(rng, 0.01, 0.2) if j == 0 else \
+                wl.loguniform(rng, 0.3, 6.0)
+            gen.add_position(P, 'a', ring, pos, velocity=v,
+                             dT=float(rng.uniform(5, 60)),
+                             shape=wl.choose(rng, ['rand', 'flat']),
+                             comps=[1, 2, 3])
+        feats = {'n_duct': nd, 'coolant_kind': ck, 'gap': gapm,
+                 'n_asm': n_asm, 'nr': P['types']['a']['num_rings'],
+                 'byp': P['types']['a'].get('bypass_gap_flow_fraction')}
     elif case['kind'] == 'approx':
         # low-flow convection approximation with T-dependent wall/coolant
         tdep = True
